@@ -111,12 +111,34 @@ def run(prop, tier, seed, workdir, log):
     called = set()
     for ty in ("u128", "i128"):
         cands = []   # (f, a, b, origin)
+        state = {"reproduced": False, "replayed": 0}
+
+        def try_candidate(f, a, b, origin):
+            """native replay of one operand pair; records the violation if it reproduces"""
+            if state["reproduced"] or state["replayed"] >= 6:
+                return state["reproduced"]
+            state["replayed"] += 1
+            out, want = native_replay(workdir, ty, f, a, b)
+            rep = any(v[0] for v in out.values())
+            log("engine M: candidate %s f=%d a=%d b=%d (%s): native %s" % (ty, f, a, b, origin[:80], {k: v[0] for k, v in out.items()}))
+            if rep:
+                state["reproduced"] = True
+                rdir = os.path.join(core.VERIF, "replays", prop)
+                os.makedirs(rdir, exist_ok=True)
+                rpath = os.path.join(rdir, "m_mul_%s_f%d-%s.json" % (ty, f, core.sha("%d,%d" % (a, b))))
+                json.dump({"engine": "mir-smt", "property": prop, "type": ty, "frac_nbits": f, "a": str(a), "b": str(b),
+                           "expected": [str(want[0]), want[1]], "origin": origin,
+                           "native": {k: {"reproduced": v[0], "message": v[1]} for k, v in out.items()}}, open(rpath, "w"), indent=1)
+                res["violations"].append(os.path.relpath(rpath, core.VERIF))
+            return rep
+
         # --- translator validation on concrete vectors (also a cheap counterexample source)
         try:
             n, bad = mulcheck.validate_translator(funcs, ty, seed + 7, n=150)
             log("engine M: %s translator validation on %d concrete vectors: %d mismatches" % (ty, n, len(bad)))
             for (x, y, f, got, want, panics) in bad[:3]:
-                cands.append((f, x, y, "concrete execution of the MIR disagrees with exact arithmetic (got %s, want %s, panics %s)" % (got, want, panics)))
+                cands.append((f, x, y, "concrete"))
+                try_candidate(f, x, y, "concrete execution of the MIR disagrees with exact arithmetic (got %s, want %s, panics %s)" % (got, want, panics))
         except mir.Unsupported as e:
             res["inconclusive"].append(("engineM_%s_validation" % ty, "unsupported MIR construct: %s" % e))
             continue
@@ -128,15 +150,15 @@ def run(prop, tier, seed, workdir, log):
                 ctx_b, q_b, cb = mulcheck.build_stage_b(funcs, ty, f)
                 called.update(ca)
                 called.update(cb)
-                out_a, _ = mulcheck.run_solver(mulcheck.smt_script(ctx_a, q_a, models=True), "cvc5", 60000)
+                out_a, _ = mulcheck.run_solver(mulcheck.smt_script(ctx_a, q_a, models=True), "cvc5", 20000)
                 ans_a, mod_a = mulcheck.parse_answers(out_a)
                 sb = mulcheck.smt_script(ctx_b, q_b, models=True, bv=True)
                 if sb is None:
                     sb = mulcheck.smt_script(ctx_b, q_b, models=True)
-                out_b, _ = mulcheck.run_solver(sb, "cvc5", 60000)
+                out_b, _ = mulcheck.run_solver(sb, "cvc5", 20000)
                 ans_b, mod_b = mulcheck.parse_answers(out_b)
                 # cross-check the bit-vector stage with z3 (the integer stage is out of z3's reach: recorded as such)
-                out_z, _ = mulcheck.run_solver(sb, "/usr/bin/z3", 60000)
+                out_z, _ = mulcheck.run_solver(sb, "/usr/bin/z3", 20000)
                 ans_z, _mz = mulcheck.parse_answers(out_z)
                 # vacuity witnesses: a goal that is false must be refutable on the same declarations
                 wq = [("witness", [], mir.B(smt="false", bv="false"))]
@@ -158,21 +180,7 @@ def run(prop, tier, seed, workdir, log):
                         if a_ == "sat":
                             verdict = "refuted"
                             why = q[0]
-                            stage_b = q in q_b
-                            if stage_b and m_:
-                                # stage B model = the two words handed to combine_lo_then_shl: no operand pair yet -> search one with the exact encoding
-                                pass
-                            # exact re-query of the whole function (value+flag and panics) for an operand pair
-                            ctx_e, q_e, _c = mulcheck.build(funcs, ty, f, exact=True)
-                            for solver in ("cvc5", "z3-new"):
-                                oe, _ = mulcheck.run_solver(mulcheck.smt_script(ctx_e, q_e, models=True), solver, 60000)
-                                ae, me = mulcheck.parse_answers(oe)
-                                for aa_, mm_ in zip(ae, me):
-                                    if aa_ == "sat" and mm_ and len(mm_) == 2:
-                                        cands.append((f, mm_[0], mm_[1], "solver model for '%s' (exact product, %s)" % (q[0], solver)))
-                                        break
-                                if cands and cands[-1][0] == f:
-                                    break
+                            cands.append((f, None, None, "refuted"))
                             break
                         verdict, why = "inconclusive", "%s: %s" % (q[0], a_)
                         break
@@ -188,30 +196,35 @@ def run(prop, tier, seed, workdir, log):
             except subprocess.TimeoutExpired:
                 res["results"].append({"name": name, "verdict": "inconclusive", "why": "solver time-out"})
                 res["inconclusive"].append((name, "solver time-out"))
-        # --- replay candidates natively
         refuted = [r for r in res["results"] if r["verdict"] == "refuted" and ("_%s_" % ty) in r["name"]]
-        replayed = 0
-        reproduced = False
-        for (f, a, b, origin) in cands:
-            if replayed >= 3:
-                break
-            replayed += 1
-            out, want = native_replay(workdir, ty, f, a, b)
-            rep = any(v[0] for v in out.values())
-            log("engine M: candidate %s f=%d a=%d b=%d (%s): native %s" % (ty, f, a, b, origin[:80], {k: v[0] for k, v in out.items()}))
-            if rep:
-                reproduced = True
-                rdir = os.path.join(core.VERIF, "replays", prop)
-                os.makedirs(rdir, exist_ok=True)
-                rpath = os.path.join(rdir, "m_mul_%s_f%d-%s.json" % (ty, f, core.sha("%d,%d" % (a, b))))
-                json.dump({"engine": "mir-smt", "property": prop, "type": ty, "frac_nbits": f, "a": str(a), "b": str(b),
-                           "expected": [str(want[0]), want[1]], "origin": origin,
-                           "native": {k: {"reproduced": v[0], "message": v[1]} for k, v in out.items()}}, open(rpath, "w"), indent=1)
-                res["violations"].append(os.path.relpath(rpath, core.VERIF))
-                break
-        if refuted and not reproduced:
+        if refuted and not state["reproduced"]:
+            # A refuted internal obligation (e.g. "the 256-bit product is exact") is a violation of the property only if it
+            # propagates to the returned value or flag: search an operand pair with the exact (non-linear) encoding of the
+            # WHOLE function for a spread of the refuted fractional-bit counts, and replay it natively.
+            fs = sorted(int(r["name"].rsplit("_f", 1)[1]) for r in refuted)
+            pick = []
+            for cand_f in (fs[-1], 64 if 64 in fs else fs[len(fs) // 2], fs[len(fs) // 2], fs[0], fs[-2] if len(fs) > 1 else fs[0]):
+                if cand_f not in pick:
+                    pick.append(cand_f)
+            for f in pick[:4]:
+                if state["reproduced"]:
+                    break
+                try:
+                    ctx_e, q_e, _c = mulcheck.build(funcs, ty, f, exact=True)
+                    for solver in ("cvc5", "z3-new"):
+                        oe, dte = mulcheck.run_solver(mulcheck.smt_script(ctx_e, q_e, models=True), solver, 20000)
+                        res["solver_s"] += dte
+                        ae, me = mulcheck.parse_answers(oe)
+                        for aa_, mm_ in zip(ae, me):
+                            if aa_ == "sat" and mm_ and len(mm_) == 2 and try_candidate(f, mm_[0], mm_[1], "solver model, exact product, %s" % solver):
+                                break
+                        if state["reproduced"]:
+                            break
+                except (mir.Unsupported, subprocess.TimeoutExpired):
+                    continue
+        if refuted and not state["reproduced"]:
             res["inconclusive"].append(("m_mul_%s" % ty, "solver refuted %d obligation(s) (%s) but no operand pair reproduced natively" % (len(refuted), refuted[0]["why"])))
-        elif not refuted and cands and not reproduced:
+        elif not refuted and cands and not state["reproduced"]:
             res["inconclusive"].append(("m_mul_%s" % ty, "concrete MIR execution disagreed with the specification but did not reproduce natively"))
     res["functions"] = sorted(called)
     return res
